@@ -202,6 +202,10 @@ func trieShrink(c06 bool) func(in []int64) [][]int64 {
 var trieUnits = []string{"a", "b", "c", "é", "中", "😀", "\xff", "\xfe"}
 var trieASCII = []string{"a", "b", "c"}
 
+// code points at the boundaries of the UTF-8 length classes and of the rune range (U+10FFFF is next to the values the
+// trie uses for invalid bytes), plus NUL and DEL
+var trieBoundary = []string{"a", "\x00", "\x7f", "\u0080", "\u07ff", "\u0800", "\ufffd", "\uffff", "\U00010000", "\U0010fffe", "\U0010ffff", "\xff"}
+
 // bytes from which truncated / overlong / stray-continuation sequences arise (rune-aligned reading)
 var trieRaw = []string{"a", "\xe4", "\xb8", "\xad", "\x80", "\xc3", "\xa9", "\xf0", "\x9f", "\xff", "\xef\xbf\xbd", "中", "é"}
 
